@@ -179,11 +179,6 @@ func (d *daemon) ServeHTTP(w http.ResponseWriter, r *http.Request) {
 		w.WriteHeader(500)
 		return
 	}
-	if r.Method == http.MethodOptions || (r.Method == http.MethodPost && len(body) == 0 && r.ContentLength == 0) {
-		// setHeaders never closes the body of the answers to its two helper requests, so each hijacked request
-		// would pin two daemon connections for ever; the fake hangs up after such answers to keep the run small
-		w.Header().Set("Connection", "close")
-	}
 	w.Header().Set("X-Daemon-Hdr", c.dHdr)
 	w.Header().Set("Content-Type", "application/octet-stream")
 	w.WriteHeader(c.dStatus)
@@ -399,6 +394,42 @@ func newRPC(r *recorder) *rpc.Client {
 }
 
 // ---------------------------------------------------------------------------
+// http.DefaultTransport of this process (ipfsproxy.New takes it as the round tripper towards the daemon) is
+// wrapped so that the harness can close, after each case, the response bodies the proxy never closes
+// (headers.go copyHeadersFromIPFSWithRequest): otherwise every hijacked request pins two connections and two
+// file descriptors for the rest of the run.
+
+type trackingRT struct {
+	inner http.RoundTripper
+	mu    sync.Mutex
+	open  []io.Closer
+}
+
+func (t *trackingRT) RoundTrip(req *http.Request) (*http.Response, error) {
+	res, err := t.inner.RoundTrip(req)
+	if res != nil && res.Body != nil {
+		t.mu.Lock()
+		t.open = append(t.open, res.Body)
+		t.mu.Unlock()
+	}
+	return res, err
+}
+
+func (t *trackingRT) settle() {
+	t.mu.Lock()
+	l := t.open
+	t.open = nil
+	t.mu.Unlock()
+	for _, c := range l {
+		c.Close()
+	}
+}
+
+var tracker = &trackingRT{inner: http.DefaultTransport}
+
+func init() { http.DefaultTransport = tracker }
+
+// ---------------------------------------------------------------------------
 // one case against a fresh proxy
 
 type world struct {
@@ -493,6 +524,7 @@ func (w *world) exec(c *tcase) (obs observation) {
 			obs.note = fmt.Sprint("panic:", r)
 		}
 	}()
+	defer tracker.settle()
 	w.d.mu.Lock()
 	w.d.cur, w.d.record = c, nil
 	w.d.mu.Unlock()
@@ -545,6 +577,7 @@ func (w *world) exec(c *tcase) (obs observation) {
 	// the handler may still be running after the response was read (it is not, for the
 	// code paths that exist: every RPC precedes the end of the response) — settle anyway
 	p.Shutdown(context.Background())
+	tracker.settle()
 	w.d.mu.Lock()
 	obs.dreqs = append([]dreq(nil), w.d.record...)
 	w.d.mu.Unlock()
@@ -678,13 +711,6 @@ func ingest(c *tcase) int {
 	if q.Get("format") == "car" {
 		return 1
 	}
-	ck := q.Get("chunker")
-	if ck == "" {
-		ck = "size-262144"
-	}
-	if _, err := chunker.FromString(bytes.NewReader(nil), ck); err != nil {
-		return 1
-	}
 	hf := q.Get("hash")
 	if hf == "" {
 		hf = "sha2-256"
@@ -717,6 +743,14 @@ func ingest(c *tcase) int {
 	}
 	if n == 0 {
 		return 3
+	}
+	// the chunker is only consulted once there is a file to chunk
+	ck := q.Get("chunker")
+	if ck == "" {
+		ck = "size-262144"
+	}
+	if _, err := chunker.FromString(bytes.NewReader(nil), ck); err != nil {
+		return 1
 	}
 	return 2
 }
@@ -821,9 +855,13 @@ func outputTokens(o observation) string {
 
 func (w *world) runCase(out *common.Out, c *tcase) {
 	o := w.exec(c)
-	if o.note != "" {
-		// infrastructure, not the code: try once more before giving up
+	for try := 0; try < 2 && (o.note != "" || (o.status == 502 && len(o.dreqs) == 0 && c.dStatus != 502)); try++ {
+		// infrastructure, not the code (no port, no descriptor, the daemon could not be dialled): try again
+		time.Sleep(200 * time.Millisecond)
 		o = w.exec(c)
+	}
+	if o.note == "" && o.status == 502 && len(o.dreqs) == 0 && c.dStatus != 502 {
+		o.note = "proxy-could-not-dial-daemon"
 	}
 	if o.note != "" {
 		out.Line("# inconclusive %s :: %s", o.note, inputTokens(c))
@@ -1224,6 +1262,17 @@ func genAdd(r *common.Rng, c *tcase) {
 		j := r.Intn(i + 1)
 		q[i], q[j] = q[j], q[i]
 	}
+	// sharded adding and nocopy are outside the model: never ask for them
+	var kept []kv
+	for _, p := range q {
+		if p.k == "shard" || p.k == "nocopy" {
+			if b, err := strconv.ParseBool(p.v); err == nil && b {
+				continue
+			}
+		}
+		kept = append(kept, p)
+	}
+	q = kept
 	if len(q) > 0 || r.Chance(1, 2) {
 		s := encodeQuery(r, q)
 		c.query = &s
@@ -1623,8 +1672,6 @@ func main() {
 		}
 		w.runCase(out, c)
 		if k%200 == 199 {
-			// finalise connections the proxy leaked (their response bodies are never closed)
-			http.DefaultTransport.(*http.Transport).CloseIdleConnections()
 			runtime.GC()
 		}
 	}
